@@ -145,18 +145,54 @@ def exec_map(case):
     return {"id": case["id"], "op": "map", "n": n, "items": items, "vc": vc, "cp": cp}
 
 
+def exact_problem(shape, rank, seed, scale, dtype, loose):
+    """Data that ARE a CP tensor and a start that reproduces them through an infeasible parametrisation."""
+    rng = np.random.RandomState((seed + 29) % (2**31))
+    G = [np.abs(rng.randn(d, rank)) + 0.1 for d in shape]
+    n = len(shape)
+    S = [g.copy() for g in G]
+    weights = None
+    variant = ["signflip", "rescale", "negweight"][rng.randint(3)]
+    a, b = sorted(rng.choice(n, 2, replace=False))
+    c = rng.randint(rank)
+    if variant == "signflip":           # one component flipped in two modes
+        S[a][:, c] *= -1
+        S[b][:, c] *= -1
+    elif variant == "rescale":          # scale moved between two modes (and a flip pair as well)
+        S[a] *= 2.0
+        S[b] *= 0.5
+        S[a][:, c] *= -1
+        S[b][:, c] *= -1
+    else:                               # a negative weight compensated by a flipped column
+        S[a][:, c] *= -1
+        weights = np.ones(rank)
+        weights[c] = -1.0
+    from tensorly.cp_tensor import cp_to_tensor
+    t = cp_to_tensor((None, G))
+    if loose:                           # near-exact: 1e-4 relative, well inside tol_outer = 1e-2
+        S = [f * (1 + 1e-4 * rng.randn(*f.shape)) for f in S]
+    S[0] = S[0] * 2.0 ** scale
+    t = (t * 2.0 ** scale).astype(dtype)
+    S = [f.astype(dtype) for f in S]
+    return t, ((weights.astype(dtype) if weights is not None else None), S)
+
+
 def exec_run(case):
     from tensorly.decomposition import constrained_parafac, ConstrainedCP
     n, items, r = case["n"], case["items"], case["run"]
     t = run_tensor(tuple(r["shape"]), r["data"], case["seed"], r["scale"], r["dtype"])
-    np.random.seed(case["seed"] % (2**31))      # init='random' draws from the global stream (F-16a)
+    np.random.seed(case["seed"] % (2**31))
     ev = {"id": case["id"], "op": "run", "n": n, "items": items, "run": r, "raised": False, "exc": "", "factors": []}
     init = r["init"]
     if init == "user":      # entrywise non-negative user start (weights None = ones)
         urng = np.random.RandomState((case["seed"] + 17) % (2**31))
         init = (None, [(np.abs(urng.randn(d, r["rank"])) + 0.05).astype(r["dtype"]) for d in r["shape"]])
+    elif init == "exact":
+        t, init = exact_problem(tuple(r["shape"]), r["rank"], case["seed"], r["scale"], r["dtype"], r["tol"] == "loose")
     opts = dict(n_iter_max=r["outer"], n_iter_max_inner=r["inner"], init=init, random_state=case["seed"] % (2**31),
                 fixed_modes=list(r["fixed"]) if r["fixed"] else None, **kwargs_of(n, items))
+    if r["tol"] == "loose":
+        opts["tol_outer"] = 1e-2
     try:
         if r["via"] == "class":
             cp = ConstrainedCP(r["rank"], **opts).fit_transform(t)
@@ -207,14 +243,19 @@ def describe(items, n, run=None):
     forms = [it["form"] for it in items]
     has_list = "list" in forms
     gaps = any(it["form"] == "list" and len(it["modes"]) < n for it in items)
+    neg = any(it["form"] == "dict" and any(m < 0 for m in it["modes"]) for it in items)
     return {"kinds": [it["kind"] for it in items], "forms": forms, "has_list": has_list,
+            # F-11e: the double-constraint test compares the raw keys, so a clash through a negative key is missed
+            "negative_key_with_second_keyword": bool(neg and len(items) > 1),
+            # F-11f: max-normalisation of an ADMM iterate that is exactly 0 (data tiny against the unit-max factors)
+            "normalize_tiny_data": bool(run and run.get("scale", 0) < 0 and any(it["kind"] == "normalize" for it in items)),
             # F-11a can only touch a list-valued keyword that has empty entries or comes with a second keyword
             "list_exposed": bool(has_list and (gaps or len(items) > 1)),
             # F-11b: the simplex projection turns a one-column factor into a vector
             "rank1_simplex_prox": bool(run and run["rank"] == 1 and any(it["kind"] in RADIUS for it in items)),
             # F-11d: unit-norm projection requested on a size-1 mode (ADMM can hit exactly 0 there: 0/0)
             "size1_normalized_sparsity": bool(run and "shape" in run and any(
-                it["kind"] == "normalized_sparsity" and any(run["shape"][m] == 1 for m in (range(n) if it["form"] == "scalar" else it["modes"]))
+                it["kind"] == "normalized_sparsity" and any(run["shape"][m % n] == 1 for m in (range(n) if it["form"] == "scalar" else it["modes"]))
                 for it in items))}
 
 
@@ -263,14 +304,14 @@ def run(chk, opts):
             rc = dict(shape=list(rng.choice(setof(d["shapes"]))), rank=rng.choice(setof(d["ranks"])), init=rng.choice(setof(d["inits"])),
                       outer=rng.choice(setof(d["outer"])), inner=rng.choice(setof(d["inner"])), data=rng.choice(setof(d["data"])),
                       fixed=list(rng.choice(setof(d["fixed"]))), via=rng.choice(setof(d["via"])),
-                      scale=rng.choice(setof(d["scales"])), dtype=rng.choice(setof(d["dtypes"])))
-            if (rc["dtype"] == "float32" and rc["scale"] not in (0, -30)) or (rc["outer"] == 0 and rc["init"] == "user"):
+                      scale=rng.choice(setof(d["scales"])), dtype=rng.choice(setof(d["dtypes"])), tol=rng.choice(setof(d["tols"])))
+            if (rc["dtype"] == "float32" and rc["scale"] not in (0, -30)) or (rc["outer"] == 0 and rc["init"] in ("user", "exact")):
                 continue
             return rc
     accepted = [c for c in specs if not c["rej"] and has_hard_request(c)]
     singles = [c for c in accepted if len(c["items"]) == 1]
     pairs = [c for c in accepted if len(c["items"]) == 2]
-    per_single = int(opts.get("per_single", 0)) or (60 if thorough else 6)
+    per_single = int(opts.get("per_single", 0)) or (40 if thorough else 3)
     npairs = int(opts.get("pairs", 0)) or (24000 if thorough else 3000)
     picked = []
     for c in singles:
@@ -303,9 +344,9 @@ def run(chk, opts):
         cases.append(d)
     nrun = len(cases) - nmap
     # ---- operator events: the real proximal_operator per mode, in every value regime
-    nprox_per = int(opts.get("per_prox", 0)) or (6 if thorough else 2)
+    nprox_per = int(opts.get("per_prox", 0)) or (4 if thorough else 1)
     for c in singles:
-        req = sorted(set(range(c["n"])) if c["items"][0]["form"] == "scalar" else set(c["items"][0]["modes"]))
+        req = sorted(set(range(c["n"])) if c["items"][0]["form"] == "scalar" else {m % c["n"] for m in c["items"][0]["modes"]})
         for _ in range(nprox_per):
             while True:
                 pr = dict(rows=rng.randint(2, 4), cols=rng.randint(1, 3), mode=rng.choice(req), data=rng.choice(setof(dom[c["n"]]["data"])),
@@ -320,7 +361,8 @@ def run(chk, opts):
     nseq = int(opts.get("seqs", 0)) or (3000 if thorough else 500)
     shifts = setof(dom[3]["shifts"])
     seqbase = [c for c in singles if c["items"][0]["kind"] in (COUNT | RADIUS)]
-    rejected = {n: [c for c in specs if c["rej"] and c["n"] == n] for n in dom}
+    rejected = {n: [c for c in specs if c["rej"] and c["n"] == n and not any(m < 0 for it in c["items"] for m in it["modes"])]
+                for n in dom}
     nmembers = 0
     for q_ in range(nseq):
         c = rng.choice(seqbase)
@@ -353,7 +395,7 @@ def run(chk, opts):
     chk.rule = ("binding 1: ALL %d specifications exported from TLC's design run of Constraints.tla (<=2 keywords x scalar/list/dict x every "
                 "mode subset, orders 3-4; %d are Reject) through validate_constraints per mode + constrained_parafac(1,1); "
                 "binding 2: %d decomposition runs = every accepted single-keyword hard specification x %d run configurations drawn from "
-                "the spec's run domain (shape x rank x init{svd,random,user} x outer{1,2,5} x inner{1,10} x data{signed,sparse,allneg} x fixed_modes{every subset of 0..n-2} x via{function,ConstrainedCP}) + %d two-keyword "
+                "the spec's run domain (shape x rank x init{svd,random,user,exact-fit infeasible start} x tol_outer{default,1e-2} x outer{1,2,5} x inner{1,10} x data{signed,sparse,allneg} x fixed_modes{every subset of 0..n-2} x via{function,ConstrainedCP}) + %d two-keyword "
                 "specifications stratified over (kinds, forms); distinct = distinct (specification, run configuration) pairs"
                 "; run domain also x outer 0 x data scale 2^{0,-70,-30,40} x dtype{float64,float32}; + %d proximal_operator events per "
                 "value regime; + %d sequences (%d runs) of 2-3 decompositions with the same keywords/modes and shifted parameters "
